@@ -14,13 +14,13 @@ Inductive tp_op :=
 | TpOpPurge (e : Z)
 | TpOpUpdate (own : list tp_seg) (prefer : bool) (incs excs : list (list tp_seg)) (b e : Z) (clear : bool).
 
-(* the model's step (fixed code) *)
-Definition tp_apply (op : tp_op) (s : tp_st) : tp_st :=
+(* the model's step (fixed code); [ma]: the form of UpdateRegion (Tp/TpModel.v: false = early return, true = merge in every round) *)
+Definition tp_apply (ma : bool) (op : tp_op) (s : tp_st) : tp_st :=
   match op with
   | TpOpAdd b e => tp_add b e s
   | TpOpRemove b e => tp_remove true b e s
   | TpOpPurge e => tp_purge e s
-  | TpOpUpdate own prefer incs excs b e clear => tp_update_region true (fun _ _ => own) prefer incs excs b e clear s
+  | TpOpUpdate own prefer incs excs b e clear => tp_update_region_ma true ma (fun _ _ => own) prefer incs excs b e clear s
   end.
 
 Definition tp_covers_b (s : tp_st) (b e : Z) : bool :=
@@ -66,6 +66,25 @@ Definition tp_noop (op : tp_op) (pre : tp_st) : bool :=
   | _ => false
   end.
 
+(* a call that has no stretch of its own to compute: nothing changes (ma = false) / valid_end stays and below it the
+   referenced periods are merged again, the old answer playing the part of "own" (ma = true) *)
+Definition tp_noop_ok (ma : bool) (probes : list Z) (op : tp_op) (pre post : tp_st) : bool :=
+  match op with
+  | TpOpUpdate _ prefer incs excs _ _ _ =>
+      if ma then
+        match tp_ve pre with
+        | None => true
+        | Some v =>
+            tp_oz_eqb (tp_ve pre) (tp_ve post) &&
+            forallb (fun t => Bool.eqb (tp_inside_segs (tp_segs post) t)
+                                (tp_below v t (tp_region_spec prefer (tp_inside_segs (tp_segs pre) t)
+                                                                (tp_inside_any incs t) (tp_inside_any excs t))
+                                          (tp_inside_segs (tp_segs pre) t))) probes
+        end
+      else tp_st_eqb pre post
+  | _ => tp_st_eqb pre post
+  end.
+
 (* the window that must be covered afterwards *)
 Definition tp_window_ok (op : tp_op) (pre post : tp_st) : bool :=
   match op with
@@ -74,9 +93,9 @@ Definition tp_window_ok (op : tp_op) (pre post : tp_st) : bool :=
   | TpOpUpdate _ _ _ _ b e clear => tp_covers_b post (tp_upd_begin b clear pre) e
   end.
 
-Definition tp_step_ok (probes : list Z) (op : tp_op) (pre post : tp_st) (ins : list bool) : bool :=
+Definition tp_step_ok (ma : bool) (probes : list Z) (op : tp_op) (pre post : tp_st) (ins : list bool) : bool :=
   tp_ins_ok post probes ins &&
-  (if tp_noop op pre then tp_st_eqb pre post
+  (if tp_noop op pre then tp_noop_ok ma probes op pre post
    else tp_window_ok op pre post &&
         forallb (fun t => match tp_expect op pre t with
                           | Some x => Bool.eqb (tp_inside_segs (tp_segs post) t) x
@@ -84,13 +103,13 @@ Definition tp_step_ok (probes : list Z) (op : tp_op) (pre post : tp_st) (ins : l
                           end) probes).
 
 (* a trace = list of (op, observed state after it, observed IsInside bits); first failing index *)
-Fixpoint tp_oracle_from (probes : list Z) (pre : tp_st) (idx : Z)
+Fixpoint tp_oracle_from (ma : bool) (probes : list Z) (pre : tp_st) (idx : Z)
          (tr : list (tp_op * tp_st * list bool)) : option Z :=
   match tr with
   | [] => None
   | (op, post, ins) :: rest =>
-      if tp_step_ok probes op pre post ins then tp_oracle_from probes post (idx + 1) rest else Some idx
+      if tp_step_ok ma probes op pre post ins then tp_oracle_from ma probes post (idx + 1) rest else Some idx
   end.
 
-Definition tp_oracle (probes : list Z) (tr : list (tp_op * tp_st * list bool)) : option Z :=
-  tp_oracle_from probes tp_empty 0 tr.
+Definition tp_oracle (ma : bool) (probes : list Z) (tr : list (tp_op * tp_st * list bool)) : option Z :=
+  tp_oracle_from ma probes tp_empty 0 tr.
